@@ -1273,15 +1273,16 @@ func (b *broker) subEventHistory(msg *wamp.Invocation) wamp.Message {
 			}
 		}
 
+		// Keep the most recent events, then order them as requested.
+		if limit > 0 {
+			start := max(len(filteredEvents)-limit, 0)
+			filteredEvents = filteredEvents[start:]
+		}
+
 		if reverse {
 			for i, j := 0, len(filteredEvents)-1; i < j; i, j = i+1, j-1 {
 				filteredEvents[i], filteredEvents[j] = filteredEvents[j], filteredEvents[i]
 			}
-		}
-
-		if limit > 0 {
-			start := max(len(filteredEvents)-limit, 0)
-			filteredEvents = filteredEvents[start:]
 		}
 
 		events, _ = wamp.AsList(filteredEvents)
